@@ -103,7 +103,10 @@ def build_files(case):
 
 
 # non-code files carry findings too (file-placement is language-agnostic): they must survive the parallel path
-CONFIG = {"dry": {"enabled": True, "min_duplicate_lines": 3},
+# (nesting / srp / the ignore list: settings that reach a rule only through the configuration the orchestrator hands on - a
+# worker that loads or receives something else reports differently)
+CONFIG = {"dry": {"enabled": True, "min_duplicate_lines": 3}, "nesting": {"max_nesting_depth": 9}, "srp": {"max_methods": 2, "max_loc": 2000},
+          "ignore": ["src/f01.*"],
           "file-placement": {"global_deny": [{"pattern": r".*notes_[0-9]+\.txt$", "reason": "no scratch notes"}, {"pattern": r".*\.csv$", "reason": "no data files"}]}}
 
 
@@ -167,7 +170,9 @@ class _Sched:
         return pickle.loads(data) if data else {i: ("err", "worker died") for i in idxs}
 
     def as_completed(self, futures):
-        assert list(futures) == self.futures
+        # the code under test decides which futures it waits for; one it does not pass in is simply never yielded (and the
+        # comparison with the sequential run shows what that loses)
+        wanted = {id(f) for f in futures}
         by_worker = {}
         for i in range(len(self.items)):
             by_worker.setdefault(self.partition[i % len(self.partition)], []).append(i)
@@ -181,7 +186,8 @@ class _Sched:
                 self.futures[i].set_result(val)
             else:
                 self.futures[i].set_exception(RuntimeError(val))
-            yield self.futures[i]
+            if id(self.futures[i]) in wanted:
+                yield self.futures[i]
 
 
 # ------------------------------------------------------------------------------ checks
